@@ -109,6 +109,8 @@ pub struct WorldCfg {
     pub h3: bool,
     pub seed_ids: Option<(u16, u32)>,
     pub session_present: bool,
+    /// reach the CONNACK through an extended authentication exchange (authorize()); None = decided by the seed (one in four)
+    pub via_auth: Option<bool>,
 }
 
 #[derive(Clone, Debug, Default)]
@@ -135,6 +137,7 @@ impl Default for WorldCfg {
             h3: false,
             seed_ids: None,
             session_present: false,
+            via_auth: None,
         }
     }
 }
@@ -186,6 +189,8 @@ pub struct World {
     pub size_mix: bool,
     /// every third publish carries a content type and a user property of boundary sizes (see `rich_options`)
     pub rich_pubs: bool,
+    /// every second subscribe() carries three topic filters (its SUBACK then has three reason codes, granted and refused mixed)
+    pub multi_filter: bool,
 }
 
 #[derive(Default, Clone, Debug)]
@@ -225,7 +230,7 @@ const P_C11: &[&str] = &["C11"];
 const P_C13: &[&str] = &["C13"];
 const P_C14: &[&str] = &["C14"];
 const P_C15: &[&str] = &["C15"];
-const P_C15_10: &[&str] = &["C15", "C10"];
+const P_C15_10: &[&str] = &["C15", "C10", "C06"];
 const P_STALL: &[&str] = &["C03", "C04", "C16"];
 const P_ANY: &[&str] = &["*"];
 
@@ -247,7 +252,7 @@ impl World {
         }
         // one world in four reaches its CONNACK at the end of an extended authentication exchange, i.e. inside
         // authorize() instead of connect(): whatever the CONNACK announces must be in force all the same
-        let via_auth = cfg.seed % 4 == 3;
+        let via_auth = cfg.via_auth.unwrap_or(cfg.seed % 4 == 3);
         if via_auth {
             let conn = ConnSpec { sei: cfg.sei, client_id: Some("c".into()), auth_method: Some("m".into()), auth_data: Some(vec![1]), ..Default::default() };
             sim.cmd(Cmd::Connect(conn));
@@ -316,6 +321,7 @@ impl World {
             reconnects: 0,
             size_mix: false,
             rich_pubs: false,
+            multi_filter: false,
             confirmed_inbound: 0,
         };
         if w.connack_sum.is_none() {
@@ -357,7 +363,16 @@ impl World {
                 }
                 OpSpec::Publish(sp)
             }
-            Kind::Sub => OpSpec::Subscribe(SubSpec::simple(&format!("f/{idx}"))),
+            Kind::Sub => {
+                let mut sp = SubSpec::simple(&format!("f/{idx}"));
+                if self.multi_filter && idx % 2 == 1 {
+                    // one subscribe() call with three topic filters: one subscription identifier, one stream
+                    let opt = sp.filters[0].1.clone();
+                    sp.filters.push((format!("g/{idx}"), opt.clone()));
+                    sp.filters.push((format!("h/{idx}/#"), opt));
+                }
+                OpSpec::Subscribe(sp)
+            }
             Kind::Unsub => OpSpec::Unsubscribe(UnsubSpec::simple(&format!("u/{idx}"))),
             Kind::Ping => OpSpec::Ping,
             Kind::Disc => OpSpec::Disconnect(DiscSpec::default()),
@@ -390,6 +405,7 @@ impl World {
     }
 
     fn new_opm(&self, kind: Kind) -> OpM {
+        let idx = self.m.len();
         OpM {
             kind,
             submitted: false,
@@ -407,7 +423,7 @@ impl World {
             either: Vec::new(),
             dropped: false,
             holds_slot: false,
-            nfilters: 1,
+            nfilters: if kind == Kind::Sub && self.multi_filter && idx % 2 == 1 { 3 } else { 1 },
             expected_items: Vec::new(),
             expected_seq: Vec::new(),
             min_items_after_drop: None,
@@ -836,6 +852,11 @@ impl World {
                 }
                 if let Some(e) = &m.expected {
                     alts.push(e.clone());
+                }
+                // a request without acknowledgement (QoS 0 publish, DISCONNECT) whose packet is on the wire has succeeded,
+                // whenever its future gets round to looking
+                if matches!(m.kind, Kind::Pub0 | Kind::Disc) && m.req_wire.is_some() {
+                    alts.push(OpOut::Unit(Ok(())));
                 }
                 m.either = alts;
             }
